@@ -912,7 +912,10 @@ impl Sim {
         if multi && msgs.len() > 1 {
             self.stats.probe("multi_len_ge_2");
         }
-        let ok = self.settle(&what, &before, real, |m| m.top_level(&sender_addr, &cmsgs), true, &[]);
+        // a top-level instantiation that fails although it must succeed (or the reverse) is C11's business too
+        // ("every stored or duplicated code can be instantiated", "rejected as a duplicate, leaving state unchanged")
+        let extra: &[&str] = if cmsgs.iter().any(|m| matches!(m, CMsg::Inst { .. })) { &["C11"] } else { &[] };
+        let ok = self.settle(&what, &before, real, |m| m.top_level(&sender_addr, &cmsgs), true, extra);
         ok
     }
 
